@@ -21,6 +21,7 @@ struct Stage {
     nerr: u64,
     linger: u64,
     code: u32,
+    take: u64, // 0 = read everything; otherwise stop reading after this many bytes and exit
 }
 
 fn stage_exec(ctx: &Ctx, i: usize, s: &Stage, dir: &Path) -> Exec {
@@ -33,12 +34,17 @@ fn stage_exec(ctx: &Ctx, i: usize, s: &Stage, dir: &Path) -> Exec {
         s.linger.to_string(),
         s.code.to_string(),
         dir.join(format!("stage{}.rep", i)).to_string_lossy().into_owned(),
+        "0".to_string(),
+        s.take.to_string(),
     ])
 }
 
 fn expected_output(input: &[u8], stages: &[Stage]) -> Vec<u8> {
     let mut data = input.to_vec();
     for (i, s) in stages.iter().enumerate() {
+        if s.take > 0 && (data.len() as u64) > s.take {
+            data.truncate(s.take as usize);
+        }
         let h = fnv(&data);
         let len = data.len();
         for x in data.iter_mut() {
@@ -61,7 +67,11 @@ fn expected_err_lines(stages: &[Stage]) -> Vec<String> {
 }
 
 /// Compose the stage sequence in a random shape; all shapes denote the same sequence.
-fn compose(rng: &mut Rng, mut execs: Vec<Exec>) -> (Pipeline, String) {
+type Setter = Option<Box<dyn FnOnce(Pipeline) -> Pipeline>>;
+
+/// `pre_in` (configures the pipeline's stdin) may be applied to the leftmost sub-pipeline *before* composing,
+/// `pre_out` (its stdout) to the rightmost sub-pipeline: what was configured must survive the composition.
+fn compose(rng: &mut Rng, mut execs: Vec<Exec>, pre_in: &mut Setter, pre_out: &mut Setter) -> (Pipeline, String) {
     let n = execs.len();
     match rng.below(4) {
         0 => (Pipeline::from_exec_iter(execs), "from_exec_iter".into()),
@@ -80,6 +90,12 @@ fn compose(rng: &mut Rng, mut execs: Vec<Exec>) -> (Pipeline, String) {
             let rest: Vec<Exec> = execs.split_off(first);
             let mut p = Pipeline::from_exec_iter(execs);
             shape.push_str(&format!("({})", first));
+            if rng.chance(600) {
+                if let Some(f) = pre_in.take() {
+                    p = f(p);
+                    shape.push_str("<in");
+                }
+            }
             let mut rest = rest.into_iter().collect::<Vec<_>>();
             while !rest.is_empty() {
                 let take = if rest.len() >= 2 && rng.chance(600) { rng.range(2, rest.len() as u64) as usize } else { 1 };
@@ -98,6 +114,13 @@ fn compose(rng: &mut Rng, mut execs: Vec<Exec>) -> (Pipeline, String) {
                         }
                         q
                     };
+                    let mut sub = sub;
+                    if tail.is_empty() && rng.chance(600) {
+                        if let Some(f) = pre_out.take() {
+                            sub = f(sub);
+                            shape.push_str("|out>");
+                        }
+                    }
                     p = p | sub;
                     shape.push_str(&format!("|({})", take));
                 }
@@ -127,27 +150,32 @@ fn c13_case(ctx: &mut Ctx, rng: &mut Rng, i: u64) {
     run::begin_case();
     let dir = ctx.scratch("c13");
     let n = rng.range(2, ctx.n(6, 8)) as usize;
+    // one case in five has a consumer that stops reading early while its producer still has far more than a pipe holds
+    let early = rng.chance(200);
+    let early_at = if early { rng.range(1, n as u64 - 1) as usize } else { usize::MAX };
     let stages: Vec<Stage> = (0..n)
         .map(|j| Stage {
             a: (rng.range(1, 255) as u8) | 1,
             b: rng.below(256) as u8,
-            nerr: rng.below(6),
+            nerr: if early { 0 } else { rng.below(6) },
             linger: if j + 1 < n && rng.chance(250) { rng.range(50, 150) } else { 0 },
             code: rng.below(4) as u32 * if rng.chance(500) { 0 } else { 1 },
+            take: if j == early_at { rng.range(1, 5000) } else { 0 },
         })
         .collect();
     let execs: Vec<Exec> = stages.iter().enumerate().map(|(j, s)| stage_exec(ctx, j, s, &dir)).collect();
-    let (mut pl, shape) = compose(rng, execs);
-    let size = match rng.below(8) { 0 => 0, 1 => rng.range(100_000, if ctx.quick() { 1_000_000 } else { 4_000_000 }), 2 => 65536, _ => rng.range(1, 70_000) } as usize;
+    let size = if early { rng.range(300_000, 900_000) } else { match rng.below(8) { 0 => 0, 1 => rng.range(100_000, if ctx.quick() { 1_000_000 } else { 4_000_000 }), 2 => 65536, _ => rng.range(1, 70_000) } } as usize;
     let data = pat_vec(rng.next(), 5, 0, size);
     // terminator and stream kinds
     let term = *rng.pick(&["join", "capture", "popen", "stream_stdout", "stream_stdin", "communicate"]);
-    let stdin_kind = match term {
+    // the early-exit scenario feeds the pipeline from a file, so that the parent itself is not the one who gets EPIPE
+    let term = if early && term == "stream_stdin" { "join" } else { term };
+    let stdin_kind = if early { "file" } else { match term {
         "capture" | "communicate" => *rng.pick(&["data", "file", "inherit"]),
         "join" | "stream_stdout" => *rng.pick(&["file", "inherit"]),
         "popen" => *rng.pick(&["pipe", "file"]),
         _ => "pipe",
-    };
+    } };
     let stdout_kind = match term {
         "capture" | "communicate" | "stream_stdout" => "pipe",
         "join" | "stream_stdin" => *rng.pick(&["file", "inherit"]),
@@ -163,13 +191,18 @@ fn c13_case(ctx: &mut Ctx, rng: &mut Rng, i: u64) {
     // what the first stage will read
     let mut input = data.clone();
     let in0 = 0;
+    let mut pre_in: Setter = None;
     match stdin_kind {
         "file" => {
             std::fs::write(&in_path, &data).unwrap();
-            pl = pl.stdin(std::fs::File::open(&in_path).unwrap());
+            let f = std::fs::File::open(&in_path).unwrap();
+            pre_in = Some(Box::new(move |p: Pipeline| p.stdin(f)));
         }
-        "data" => pl = pl.stdin(data.clone()),
-        "pipe" => pl = pl.stdin(Redirection::Pipe),
+        "data" => {
+            let d = data.clone();
+            pre_in = Some(Box::new(move |p: Pipeline| p.stdin(d)));
+        }
+        "pipe" => pre_in = Some(Box::new(|p: Pipeline| p.stdin(Redirection::Pipe))),
         _ => {
             // inherited: the worker's own stdin is a scratch file; rewind it and take its content from there
             unsafe { libc::syscall(libc::SYS_lseek, 0, in0, libc::SEEK_SET) };
@@ -178,10 +211,22 @@ fn c13_case(ctx: &mut Ctx, rng: &mut Rng, i: u64) {
     }
     let out_before = own_offset(1);
     let err_before = own_offset(2);
+    let mut pre_out: Setter = None;
     match stdout_kind {
-        "file" => pl = pl.stdout(std::fs::File::create(&out_path).unwrap()),
-        "pipe" => pl = pl.stdout(Redirection::Pipe),
+        "file" => {
+            let f = std::fs::File::create(&out_path).unwrap();
+            pre_out = Some(Box::new(move |p: Pipeline| p.stdout(f)));
+        }
+        // (terminators that pipe stdout themselves do it after composition)
+        "pipe" if term == "popen" => pre_out = Some(Box::new(|p: Pipeline| p.stdout(Redirection::Pipe))),
         _ => {}
+    }
+    let (mut pl, shape) = compose(rng, execs, &mut pre_in, &mut pre_out);
+    if let Some(f) = pre_in.take() {
+        pl = f(pl);
+    }
+    if let Some(f) = pre_out.take() {
+        pl = f(pl);
     }
     if stderr_kind == "file" {
         pl = pl.stderr_to(std::fs::File::create(&err_path).unwrap());
@@ -191,6 +236,7 @@ fn c13_case(ctx: &mut Ctx, rng: &mut Rng, i: u64) {
     let mut got_err: Option<Vec<u8>> = None;
     let mut status: Option<ExitStatus> = None;
     let data2 = data.clone();
+    let mut parent_extra: Vec<String> = vec![];
     let m = run::monitored(|| -> Result<(), String> {
         match term {
             "join" => status = Some(pl.join().map_err(|e| e.to_string())?),
@@ -218,7 +264,21 @@ fn c13_case(ctx: &mut Ctx, rng: &mut Rng, i: u64) {
                 drop(w);
             }
             _ => {
+                let before = spawn::snap();
                 let mut v: Vec<Popen> = pl.popen().map_err(|e| e.to_string())?;
+                // the parent may hold nothing of the pipeline but the exposed ends of its first and last command
+                let mut allowed = vec![];
+                for p in v.iter() {
+                    for f in [&p.stdin, &p.stdout, &p.stderr] {
+                        if let Some(f) = f {
+                            allowed.push(f.as_raw_fd());
+                        }
+                    }
+                }
+                let extra: Vec<String> = crate::ilog::quiet(|| spawn::leaked(&before, &spawn::snap(), &allowed)).into_iter().filter(|s| s.contains("pipe:")).collect();
+                if !extra.is_empty() {
+                    parent_extra = extra;
+                }
                 // feed and drain concurrently-safe: write from a helper thread when both ends are piped
                 let stdin = v[0].stdin.take();
                 let stdout = v.last_mut().unwrap().stdout.take();
@@ -265,8 +325,12 @@ fn c13_case(ctx: &mut Ctx, rng: &mut Rng, i: u64) {
         ctx.sample(desc.clone());
     }
     let w = |extra: J| desc.clone().set("debug", J::s(&dbg[..dbg.len().min(600)])).set("detail", extra);
+    if !parent_extra.is_empty() {
+        ctx.violation("C13/parent-holds-interstage-pipe", "after Pipeline::popen() the parent still holds an end of a pipe between two commands: the commands are not connected to each other and nothing else", w(J::arr_s(&parent_extra)));
+    }
+    ctx.count(if early { "pipelines_with_early_exiting_consumer" } else { "pipelines_reading_everything" }, 1);
     if let Some(c) = &m.cert {
-        ctx.violation(&format!("C13/hang/{}", term), "the pipeline deadlocked", w(run::cert_json(c)));
+        ctx.violation(&format!("C13/hang/{}{}", term, if early { "/early-exiting-consumer" } else { "" }), "the pipeline deadlocked", w(run::cert_json(c)));
         run::end_case();
         return;
     }
@@ -344,7 +408,7 @@ fn shape_class(s: &str) -> &'static str {
 
 const TERMS: [&str; 6] = ["popen", "join", "capture", "communicate", "stream_stdout", "stream_stdin"];
 const STDINS: [&str; 4] = ["inherit", "pipe", "data", "file"];
-const EARLIER: [&str; 3] = ["cat-like", "ignores-stdin-and-sleeps", "writes-a-lot"];
+const EARLIER: [&str; 4] = ["cat-like", "ignores-stdin-and-sleeps", "writes-a-lot", "writes-a-lot-to-stderr"];
 
 fn c14_case(ctx: &mut Ctx, n: usize, kfail: usize, stdin_kind: &str, term: &str, earlier: &str, detached: bool) {
     // which combinations exist
@@ -365,9 +429,11 @@ fn c14_case(ctx: &mut Ctx, n: usize, kfail: usize, stdin_kind: &str, term: &str,
             Exec::cmd(dir.join("no-such-program"))
         } else {
             match earlier {
-                "cat-like" => stage_exec(ctx, j, &Stage { a: 1, b: 0, nerr: 0, linger: 0, code: 0 }, &dir),
+                "cat-like" => stage_exec(ctx, j, &Stage { a: 1, b: 0, nerr: 0, linger: 0, code: 0, take: 0 }, &dir),
                 "ignores-stdin-and-sleeps" => Exec::cmd(&ctx.vchild).args(&["io", "1", "s30,x0"]).arg(dir.join(format!("io{}.rep", j))),
-                _ => Exec::cmd(&ctx.vchild).args(&["io", "1", "w1:400000:4096,x0"]).arg(dir.join(format!("io{}.rep", j))),
+                "writes-a-lot" => Exec::cmd(&ctx.vchild).args(&["io", "1", "w1:400000:4096,x0"]).arg(dir.join(format!("io{}.rep", j))),
+                // more than a pipe holds on stderr: with capture/communicate the pipeline's stderr is a pipe the parent must serve or close
+                _ => Exec::cmd(&ctx.vchild).args(&["io", "1", "w2:300000:4096,x0"]).arg(dir.join(format!("io{}.rep", j))),
             }
         };
         if detached {
@@ -444,7 +510,15 @@ fn c14_case(ctx: &mut Ctx, n: usize, kfail: usize, stdin_kind: &str, term: &str,
         ctx.violation(&format!("C14/fd-leak/{}", term), "descriptors of the failed attempt remain open in the parent", w(J::arr_s(&leaks)));
     }
     ctx.count("child_audits", 1);
-    if !detached {
+    if detached {
+        // commands that did start are detached, but the forked child of the command that failed to start is nobody's to wait for but the library's
+        if let Some(&failed) = forks.get(kfail) {
+            spawn::wait_dead(failed, 1000);
+            if let Some(st) = spawn::surviving(&[failed]).first() {
+                ctx.violation(&format!("C14/zombie-of-failed-command/{}", term), "the child forked for the command that could not be started was never reaped", w(J::s(&format!("{:?}", st))));
+            }
+        }
+    } else {
         let left = spawn::surviving(&forks);
         if !left.is_empty() {
             let z = left.iter().any(|s| s.1 == 'Z');
